@@ -647,6 +647,21 @@ def octave_cases():
                 yield {"sp": "octave", "order": order, "box": [a, c, b, d]}
 
 
+DEC_T = [float(i) for i in range(10)]            # every 2nd sample of a 0.5 s range axis
+DEC_F = [750.0 * i for i in range(8)]            # every 3rd bin of a 250 Hz range axis
+
+
+def decimated_cases():
+    """Boxes on a template cut from a finer one with isel (every 2nd time sample, every 3rd frequency bin): xarray keeps the
+    coordinates' attributes, so both axes still advertise the finer step; the bins are those of the coordinates."""
+    tpos = [0.0, 0.5, 1.0, 2.5, 3.0, 4.75, 7.0, 9.0]
+    fpos = [0.0, 250.0, 750.0, 1000.0, 2250.0, 3000.0, 4500.0, 5250.0]
+    for order in ORDERS:
+        for a, b in itertools.combinations(tpos, 2):
+            for c, d in itertools.combinations(fpos, 2):
+                yield {"sp": "octave", "axes": "decimated", "order": order, "box": [a, c, b, d]}
+
+
 def run_octave(case):
     import bisect
     from soundevent import data
@@ -654,10 +669,20 @@ def run_octave(case):
     order = case["order"]
     a, c, b, d = case["box"]
     dims = [FREQ, TIME] if order == "ft" else [TIME, FREQ]
-    shape = (len(OCT_F), len(OCT_T)) if order == "ft" else (len(OCT_T), len(OCT_F))
-    t = arrays.create_time_range(0.0, 5.0, step=1.0)
-    tpl = xr.DataArray(np.full(shape, 9.0), dims=dims, coords={TIME: t, FREQ: xr.Variable(FREQ, np.array(OCT_F))})
-    cls = {"fn": "rasterize", "geom": "box", "kind": "octave_axis", "order": order}
+    if case.get("axes") == "decimated":
+        OCT_T, OCT_F = DEC_T, DEC_F
+        ft = arrays.create_time_range(0.0, 10.0, step=0.5)
+        ff = arrays.create_frequency_range(0.0, 6000.0, step=250.0)
+        shape = (ff.size, ft.size) if order == "ft" else (ft.size, ff.size)
+        tpl = xr.DataArray(np.full(shape, 9.0), dims=dims, coords={TIME: ft, FREQ: ff}).isel({TIME: slice(None, None, 2), FREQ: slice(None, None, 3)})
+        assert [float(v) for v in tpl.coords[TIME].data] == DEC_T and [float(v) for v in tpl.coords[FREQ].data] == DEC_F
+        cls = {"fn": "rasterize", "geom": "box", "kind": "decimated_axes", "order": order}
+    else:
+        OCT_T, OCT_F = globals()["OCT_T"], globals()["OCT_F"]
+        shape = (len(OCT_F), len(OCT_T)) if order == "ft" else (len(OCT_T), len(OCT_F))
+        t = arrays.create_time_range(0.0, 5.0, step=1.0)
+        tpl = xr.DataArray(np.full(shape, 9.0), dims=dims, coords={TIME: t, FREQ: xr.Variable(FREQ, np.array(OCT_F))})
+        cls = {"fn": "rasterize", "geom": "box", "kind": "octave_axis", "order": order}
     out.transitions = out.validated = 1
     try:
         r = rasterize([data.BoundingBox(coordinates=[a, c, b, d])], tpl, values=[3.0])
@@ -679,6 +704,8 @@ def run_block(block, rec):
     sp = block["sp"]
     if sp == "octave":
         for case in octave_cases():
+            rec.add(run_octave(case))
+        for case in decimated_cases():
             rec.add(run_octave(case))
         return
     if sp == "longlist":
